@@ -420,6 +420,10 @@ func init() {
 		perTrigger := map[string][][]string{
 			"constant": {{"--jitter", "100"}, {"--jitter", "abc"}, {"--distribution", "regular"}, {"--distribution", "random"}, {"--distribution", ""}},
 			"staged": {{"--jitter", "-50"}, {"--jitter", "100"}, {"--distribution", "bogus"}, {"--distribution", "random"},
+				// a start of the stage calculation that lies in the future / long ago (the flag's own peculiar layout), and one
+				// that is not a time at all
+				{"--startTime", "2099-01-01T00:00:00+07:00"}, {"--startTime", "2001-01-01T00:00:00+07:00"}, {"--startTime", "tomorrow"},
+				{"-s", "0s:0,168h:50000", "-f", "20ms"},
 				// a profile that dips below zero, spread over sub-ticks (interval > 100 ms so that the distribution is active)
 				{"-s", "0s:6,300ms:-6,300ms:-6", "-f", "200ms", "--distribution", "random", "--max-duration", "900ms"},
 				{"-s", "0s:6,300ms:-6,300ms:-6", "-f", "200ms", "--distribution", "regular", "--max-duration", "900ms"},
